@@ -71,6 +71,14 @@ theorem fact_filter_calls :
     (∀ c ∈ ["IsActive", "IsDoNotDisruptActive"], c ∈ CandidateFacts.isDisruptableCalls) ∧
     (∀ c ∈ ["Clear", "IsUnderConsolidateAfter", "SetTrue"], c ∈ CandidateFacts.consolidatableCalls) := by decide
 
+/-- the Consolidation sub-reconciler runs — and what it did is persisted — whatever the Drift sub-reconciler
+    returned: `runReconcilers` runs drift then consolidation in a loop without early exit (errors are collected), and
+    `Controller.Reconcile` cannot return between `runReconcilers` and the status patch.  `reconcileClaimF` (which
+    ignores `RFaults.drift`) rests on this. -/
+theorem fact_sub_reconcilers :
+    CandidateFacts.subReconcilers = ["drift", "consolidation"] ∧
+    CandidateFacts.subReconcilerLoopExits = 0 ∧ CandidateFacts.reconcileReturnsBeforePatch = 0 := by decide
+
 /-! ## The main theorem: all worlds × all five methods -/
 
 /-- **C07_no_protected** — for every world and each of the five methods: if the method selects the node, then the
@@ -240,33 +248,64 @@ theorem C07_consolidatable_elapsed (pool : Pool) (c : Claim) (now : Int)
     unfold elapsedSince at he
     cases hl : c.lastPodEvent <;> simp_all
 
-/-- **C07_reconcile** — the whole controller: a NodeClaim it must not touch keeps its condition; a live NodeClaim of an existing dynamic
-    pool ends up Consolidatable iff the specification allows it -/
-theorem C07_reconcile (pool : Pool) (c : Claim) (now : Int) :
-    let c' := reconcileClaim pool c now
-    (c.deleting = true ∨ c.md.pool ≠ .this ∨ pool.present = false ∨ pool.static = true → c' = c) ∧
+/-- **C07_reconcile** — the whole controller, under ANY combination of faults of one run (failing drift check,
+    failing NodePool read, refused status patch): a NodeClaim it must not or cannot touch keeps its condition; a live
+    NodeClaim of an existing, readable dynamic pool whose status write is accepted ends up Consolidatable iff the
+    specification allows it — whether or not the drift check of the same run failed. -/
+theorem C07_reconcile (f : RFaults) (pool : Pool) (c : Claim) (now : Int) :
+    let c' := reconcileClaimF f pool c now
+    (c.deleting = true ∨ c.md.pool ≠ .this ∨ pool.present = false ∨ pool.static = true ∨
+        f.poolGet = true ∨ f.patch = true → c' = c) ∧
     (c.deleting = false → c.md.pool = .this → pool.present = true → pool.static = false →
+      f.poolGet = false → f.patch = false →
       (c'.consolidatable = .true_ ↔ mayBeConsolidatable pool c now = true)) := by
   rw [← afterController_eq]
-  unfold afterController
+  unfold afterController controllerActs
   constructor
   · intro h
-    rcases h with h | h | h | h
+    rcases h with h | h | h | h | h | h
     · simp [h]
-    · have : (c.md.pool != PoolRef.this) = true := by simpa using h
+    · have : (c.md.pool == PoolRef.this) = false := by simpa using h
       simp [this]
     · simp [h]
     · simp [h]
-  · intro h1 h2 h3 h4
-    simp only [h1, h2, h3, h4]
+    · simp [h]
+    · simp [h]
+  · intro h1 h2 h3 h4 h5 h6
+    simp only [h1, h2, h3, h4, h5, h6]
     cases mayBeConsolidatable pool c now <;> simp
 
+/-- **C07_reconcile_acceptable** — the same in the specification's words (`controllerActs`, `conditionAcceptable`):
+    under any faults the persisted condition is acceptable — True only if the window has elapsed when the controller
+    has its say, and only as a leftover when it has not. -/
+theorem C07_reconcile_acceptable (f : RFaults) (pool : Pool) (c : Claim) (now : Int) :
+    conditionAcceptable f pool c now (reconcileClaimF f pool c now).consolidatable = true := by
+  rw [← afterController_eq]
+  unfold conditionAcceptable afterController
+  cases hact : controllerActs f pool c
+  · cases hc : c.consolidatable <;> simp [hc]
+  · cases hmb : mayBeConsolidatable pool c now <;> simp
+
+/-- **C07_reconcile_withdraws** — a pod event is honoured at the next run even when the drift check of that run
+    fails: if the controller has its say and consolidateAfter has not elapsed since the last pod event, the persisted
+    NodeClaim is not Consolidatable afterwards, for every value of `f.drift`. -/
+theorem C07_reconcile_withdraws (f : RFaults) (pool : Pool) (c : Claim) (now : Int)
+    (hact : controllerActs f pool c = true) (h : mayBeConsolidatable pool c now = false) :
+    (reconcileClaimF f pool c now).consolidatable = .absent := by
+  rw [← afterController_eq]
+  unfold afterController
+  simp [hact, h]
+
+/-- **C07_drift_fault_irrelevant** — what is persisted does not depend on whether the drift check failed -/
+theorem C07_drift_fault_irrelevant (f : RFaults) (d : Bool) (pool : Pool) (c : Claim) (now : Int) :
+    reconcileClaimF { f with drift := d } pool c now = reconcileClaimF f pool c now := rfl
+
 /-- **C07_consolidation_pipeline** — when the condition on the NodeClaim is the one the controller has just
-    maintained (same instant), a consolidation method selecting the node implies that consolidateAfter has elapsed
-    since the last pod event. -/
-theorem C07_consolidation_pipeline (w : World) (c : Claim) (m : Method)
-    (hc : w.claim = some (reconcileClaim w.pool c w.now))
-    (hlive : c.deleting = false) (hlbl : c.md.pool = .this)
+    maintained (same instant; the run may have had a failing drift check, but read the pool and wrote the status), a
+    consolidation method selecting the node implies that consolidateAfter has elapsed since the last pod event. -/
+theorem C07_consolidation_pipeline (w : World) (c : Claim) (m : Method) (f : RFaults)
+    (hc : w.claim = some (reconcileClaimF f w.pool c w.now))
+    (hlive : c.deleting = false) (hlbl : c.md.pool = .this) (hget : f.poolGet = false) (hpatch : f.patch = false)
     (hwf : wellFormed w = true) (hm : isConsolidation m = true) (h : selected w m = true) :
     mayBeConsolidatable w.pool c w.now = true := by
   obtain ⟨hcons, hdyn, _, _, _⟩ := C07_consolidation w m hwf hm h
@@ -280,7 +319,7 @@ theorem C07_consolidation_pipeline (w : World) (c : Claim) (m : Method)
     | some n =>
       simp only [hn, Bool.or_eq_false_iff, Bool.not_eq_false'] at hun
       exact hun.2.1.2
-  have := (C07_reconcile w.pool c w.now).2 hlive hlbl hpres hdyn
+  have := (C07_reconcile f w.pool c w.now).2 hlive hlbl hpres hdyn hget hpatch
   apply this.mp
   unfold consolidatable at hcons
   rw [hc] at hcons
@@ -337,16 +376,17 @@ theorem C07_history_windows (env : World) (es : List Ev) (t0 : Int) (m : Method)
     constructor <;> omega
 
 /-- **C07_history_consolidatable** — along any history: if the last thing that happened to the NodeClaim was a run
-    of the nodeclaim.disruption controller (at the instant the prefix `es₁` ends, on the live, labelled NodeClaim `c`),
+    of the nodeclaim.disruption controller (at the instant the prefix `es₁` ends, on the live, labelled NodeClaim `c`;
+    the run may have had a failing drift check, but read the pool and wrote the status),
     and a consolidation method selects the node after any number of later clock ticks, nominations, marks and Node
     events, then at that run consolidateAfter had elapsed since the last pod event and `c` was initialized. -/
-theorem C07_history_consolidatable (env : World) (es₁ es₂ : List Ev) (t0 : Int) (m : Method) (c : Claim)
+theorem C07_history_consolidatable (env : World) (es₁ es₂ : List Ev) (t0 : Int) (m : Method) (c : Claim) (f : RFaults)
     (hc : (specRun env.pool { now := t0 } es₁).claim = some c)
-    (hlive : c.deleting = false) (hlbl : c.md.pool = .this)
+    (hlive : c.deleting = false) (hlbl : c.md.pool = .this) (hget : f.poolGet = false) (hpatch : f.patch = false)
     (hq : ∀ e ∈ es₂, quiet e = true)
-    (hwf : wellFormed ((specRun env.pool { now := t0 } (es₁ ++ [Ev.reconcile] ++ es₂)).world env) = true)
+    (hwf : wellFormed ((specRun env.pool { now := t0 } (es₁ ++ [Ev.reconcile f] ++ es₂)).world env) = true)
     (hm : isConsolidation m = true)
-    (h : hselected env (hrun env.batchMax env.pool { now := t0, sn := none } (es₁ ++ [Ev.reconcile] ++ es₂)) m = true) :
+    (h : hselected env (hrun env.batchMax env.pool { now := t0, sn := none } (es₁ ++ [Ev.reconcile f] ++ es₂)) m = true) :
     mayBeConsolidatable env.pool c (specRun env.pool { now := t0 } es₁).now = true := by
   have ha := C07_history env _ t0 m hwf h
   unfold allowedAfter at ha
@@ -357,11 +397,11 @@ theorem C07_history_consolidatable (env : World) (es₁ es₂ : List Ev) (t0 : I
   -- the final claim is what the controller left
   rw [List.append_assoc, specRun_append] at hok hnl
   generalize hl₁ : specRun env.pool { now := t0 } es₁ = l₁ at *
-  have hfinal : (specRun env.pool l₁ ([Ev.reconcile] ++ es₂)).claim = some (afterController env.pool c l₁.now) := by
+  have hfinal : (specRun env.pool l₁ ([Ev.reconcile f] ++ es₂)).claim = some (afterController f env.pool c l₁.now) := by
     simp only [List.singleton_append, specRun]
     apply quiet_run_keeps_claim env.pool es₂ _ _ hq
     simp [specStep, hc]
-  generalize specRun env.pool l₁ ([Ev.reconcile] ++ es₂) = lf at *
+  generalize specRun env.pool l₁ ([Ev.reconcile f] ++ es₂) = lf at *
   unfold consolidationOk at hok
   simp only [Bool.and_eq_true, Bool.not_eq_true'] at hok
   obtain ⟨⟨⟨⟨hcd, hdyn⟩, _⟩, _⟩, _⟩ := hok
@@ -382,9 +422,10 @@ theorem C07_history_consolidatable (env : World) (es₁ es₂ : List Ev) (t0 : I
       exact h2.1.2
   unfold consolidatable at hcd
   simp only [Log.world, hfinal] at hcd
-  unfold afterController at hcd
-  have hp : (c.md.pool != PoolRef.this) = false := by simp [hlbl]
-  simp only [hlive, hp, hpres, hdyn', Bool.or_false, Bool.not_true, Bool.false_eq_true, if_false] at hcd
+  unfold afterController controllerActs at hcd
+  have hp : (c.md.pool == PoolRef.this) = true := by simp [hlbl]
+  simp only [hlive, hp, hpres, hdyn', hget, hpatch, Bool.not_false, Bool.and_self, Bool.not_true,
+    Bool.false_eq_true, if_false] at hcd
   cases hmb : mayBeConsolidatable env.pool c l₁.now with
   | true => rfl
   | false => simp [hmb] at hcd
@@ -509,6 +550,20 @@ example : empty { busy with pods := [{ plainPod with delCost := some (-134217728
 example : consolidatableAfter okPool { okClaim with lastPodEvent := some 7170000000000 } 7200000000000 = .true_ ∧
     consolidatableAfter okPool { okClaim with lastPodEvent := some 7170000000000 } 7199999999999 = .absent ∧
     mayBeConsolidatable okPool { okClaim with lastPodEvent := some 7170000000000 } 7199999999999 = false := by decide
+-- … a pod event is honoured by the next run of the controller although the drift check of that run fails; a refused
+-- status patch leaves the stale condition (the controller has no say then) …
+def podEventClaim : Claim := { okClaim with lastPodEvent := some 7190000000000 }
+example : controllerActs { drift := true } okPool podEventClaim = true ∧
+    mayBeConsolidatable okPool podEventClaim 7200000000000 = false ∧
+    (reconcileClaimF { drift := true } okPool podEventClaim 7200000000000).consolidatable = .absent ∧
+    selected { busy with claim := some (reconcileClaimF { drift := true } okPool podEventClaim 7200000000000) } .multi = false ∧
+    controllerActs { patch := true } okPool podEventClaim = false ∧
+    (reconcileClaimF { patch := true } okPool podEventClaim 7200000000000).consolidatable = .true_ := by decide
+def podEventHistory : List Ev :=
+  [.claim (some okClaim), .node (some okNode), .tick 60000000000, .podEvent, .tick 1000000000,
+   .reconcile { drift := true }, .tick 28999999999, .reconcile { drift := true }, .tick 1, .reconcile { drift := true }]
+example : (hobserve busy { now := 0, sn := none } podEventHistory).map (fun r => r.getD 3 false)
+    = [false, true, true, true, true, false, false, false, false, true] := by decide
 -- … and a history: nominate, wait out the window, mark, unmark; Drift's verdict after every event
 def demoHistory : List Ev :=
   [.claim (some okClaim), .node (some okNode), .nominate, .tick 19999999999, .tick 1, .mark, .node (some okNode), .unmark]
